@@ -632,6 +632,10 @@ func main() {
 		} else {
 			s = genSpec(rng.Split())
 		}
+		if os.Getenv("C07_DEBUG") != "" {
+			jb, _ := json.Marshal(s)
+			fmt.Fprintf(os.Stderr, "%s\n", jb)
+		}
 		r := runSpec(&s)
 		if r.Dropped != "" {
 			w.Count("dropped:" + r.Dropped)
